@@ -13,13 +13,14 @@ set_option linter.unusedVariables false
 /-- the state `st` with `dm` / `dl` in front of its MetaData list / callback log -/
 def FSt.pre (dm : List PyVal) (dl : List String) (st : FSt) : FSt := { md := dm ++ st.md, log := dl ++ st.log }
 
-def FRes.pre (dm : List PyVal) (dl : List String) (r : FRes) : FRes := ⟨r.e, r.ty, r.st.pre dm dl⟩
+def FRes.pre (dm : List PyVal) (dl : List String) (r : FRes) : FRes := ⟨r.e, r.ty, r.st.pre dm dl, r.elts⟩
 
 @[simp] theorem FSt.pre_md (dm dl) (st : FSt) : (st.pre dm dl).md = dm ++ st.md := rfl
 @[simp] theorem FSt.pre_log (dm dl) (st : FSt) : (st.pre dm dl).log = dl ++ st.log := rfl
 @[simp] theorem FRes.pre_e (dm dl) (r : FRes) : (r.pre dm dl).e = r.e := rfl
 @[simp] theorem FRes.pre_ty (dm dl) (r : FRes) : (r.pre dm dl).ty = r.ty := rfl
 @[simp] theorem FRes.pre_st (dm dl) (r : FRes) : (r.pre dm dl).st = r.st.pre dm dl := rfl
+@[simp] theorem FRes.pre_elts (dm dl) (r : FRes) : (r.pre dm dl).elts = r.elts := rfl
 
 theorem applyCb_pre (cb : Option CbSpec) (dm : List PyVal) (dl : List String) (st : FSt) (e : Expr) :
     applyCb cb (st.pre dm dl) e = ((applyCb cb st e).1.pre dm dl, (applyCb cb st e).2) := by
@@ -57,7 +58,7 @@ macro "wr_step" : tactic => `(tactic| first
   | contradiction
   | (exfalso; simp_all; done)
   | (simp_all only [mapE_bind_right, mapE_pure, mapE_error, mapE_ite, mapE_ok, pure, Except.pure, if_true, if_false,
-      FRes.pre_st, FRes.pre_e, FRes.pre_ty]))
+      FRes.pre_st, FRes.pre_e, FRes.pre_ty, FRes.pre_elts]))
 
 def Writer (M : Model) (fuel : Nat) : Prop :=
   (∀ G st dm dl e, follow M fuel G (FSt.pre dm dl st) e = mapE (FRes.pre dm dl) (follow M fuel G st e)) ∧
@@ -88,46 +89,28 @@ theorem follow_writer (M : Model) : ∀ fuel, Writer M fuel := by
       | const c => simp only [follow]; rfl
       | lam ps b => simp only [follow]; rfl
       | attr v a =>
-        simp only [follow]
-        rw [ihS]
-        cases hv : follow M fuel G st v with
-        | error e => simp [bind, Except.bind]
-        | ok r =>
-          simp only [mapE_ok, bind, Except.bind, FRes.pre_e, FRes.pre_st]
-          split
-          · cases dictLitIndex a _ 0 with
-            | error e => rfl
-            | ok oi =>
-              simp only []
-              cases oi with
-              | some i =>
-                simp only []
-                split
-                · rw [ihS]
-                  cases follow M fuel G r.st _ <;> simp [pure, Except.pure, FRes.pre]
-                · rfl
-              | none => simp only []; split <;> rfl
-          · repeat' split
-            all_goals simp_all [mapE, pure, Except.pure, FRes.pre]
+        simp only [follow, ihS, mapE_bind, mapE_bind_right, FRes.pre_st, FRes.pre_e, FRes.pre_ty, FRes.pre_elts]
+        apply bind_congr'; intro r
+        repeat' wr_step
       | sub v s =>
-        simp only [follow, ihS, mapE_bind, mapE_bind_right, FRes.pre_st, FRes.pre_e, FRes.pre_ty]
+        simp only [follow, ihS, mapE_bind, mapE_bind_right, FRes.pre_st, FRes.pre_e, FRes.pre_ty, FRes.pre_elts]
         apply bind_congr'; intro rv
         apply bind_congr'; intro rs
         repeat' wr_step
       | tuple es =>
-        simp only [follow, ihS, ihL, mapE_bind, mapE_bind_right, FRes.pre_st, FRes.pre_e, FRes.pre_ty]
+        simp only [follow, ihS, ihL, mapE_bind, mapE_bind_right, FRes.pre_st, FRes.pre_e, FRes.pre_ty, FRes.pre_elts]
         repeat' wr_step
       | list es =>
-        simp only [follow, ihS, ihL, mapE_bind, mapE_bind_right, FRes.pre_st, FRes.pre_e, FRes.pre_ty]
+        simp only [follow, ihS, ihL, mapE_bind, mapE_bind_right, FRes.pre_st, FRes.pre_e, FRes.pre_ty, FRes.pre_elts]
         repeat' wr_step
       | dict ks vs =>
-        simp only [follow, ihS, ihL, mapE_bind, mapE_bind_right, FRes.pre_st, FRes.pre_e, FRes.pre_ty]
+        simp only [follow, ihS, ihL, mapE_bind, mapE_bind_right, FRes.pre_st, FRes.pre_e, FRes.pre_ty, FRes.pre_elts]
         repeat' wr_step
       | op k args =>
-        simp only [follow, ihS, ihL, mapE_bind, mapE_bind_right, FRes.pre_st, FRes.pre_e, FRes.pre_ty]
+        simp only [follow, ihS, ihL, mapE_bind, mapE_bind_right, FRes.pre_st, FRes.pre_e, FRes.pre_ty, FRes.pre_elts]
         repeat' wr_step
       | comp kind el t i ifs a =>
-        simp only [follow, ihS, ihL, mapE_bind, mapE_bind_right, FRes.pre_st, FRes.pre_e, FRes.pre_ty]
+        simp only [follow, ihS, ihL, mapE_bind, mapE_bind_right, FRes.pre_st, FRes.pre_e, FRes.pre_ty, FRes.pre_elts]
         repeat' wr_step
       | call f args kwn kwv =>
         simp only [follow, ihS, ihL, ihM, mapE_bind, mapE_bind_right, FRes.pre_st, FRes.pre_e, FRes.pre_ty, applyCb_pre]
@@ -164,7 +147,7 @@ theorem follow_writer (M : Model) : ∀ fuel, Writer M fuel := by
           have hst : ({ md := [], log := (FSt.pre dm dl st).log } : FSt) = FSt.pre [] dl { md := [], log := st.log } := by
             simp [FSt.pre]
           rw [hst, ihS]
-          simp only [mapE_bind, mapE_bind_right, FRes.pre_st, FRes.pre_e, FRes.pre_ty]
+          simp only [mapE_bind, mapE_bind_right, FRes.pre_st, FRes.pre_e, FRes.pre_ty, FRes.pre_elts]
           apply bind_congr'; intro rb
           apply bind_congr'; intro u
           by_cases hb : (m == "Where" && !rb.ty.beq Ty.bool) = true
